@@ -45,9 +45,9 @@ package httpendpoint
 //@   ensures !smload.ret1[old(smload.n)] && old(len(ruleSet.Rules)) == 0 ==> onc.n == old(onc.n) && onu.n == old(onu.n) && ond.n == old(ond.n) && smstore.n == old(smstore.n) && smdel.n == old(smdel.n) && ret0 == nil
 //@   ensures ret0 != nil ==> smstore.n == old(smstore.n) && smdel.n == old(smdel.n)
 //@   ensures ret0 == nil && (onc.n > old(onc.n) || onu.n > old(onu.n)) ==> smstore.n == old(smstore.n) + 1 && smstore.arg0[old(smstore.n)] == &p.states && smstore.arg1[old(smstore.n)] == iface(stateID)
-//@   assert at call Equal#1: callarg0 == unbox(smload.ret0[smload.n - 1], "[]byte") && callarg1 == ruleSet.Hash
-//@   assert at call Store#1: callarg2 == iface(ruleSet.Hash)
-//@   assert at call Store#2: callarg2 == iface(ruleSet.Hash)
+//@   assert at call Equal#1@81ed5152.1: callarg0 == unbox(smload.ret0[smload.n - 1], "[]byte") && callarg1 == ruleSet.Hash
+//@   assert at call Store#1@49208c71.1: callarg2 == iface(ruleSet.Hash)
+//@   assert at call Store#2@49208c71.2: callarg2 == iface(ruleSet.Hash)
 
 // one poll: an invalid answer (internal / configuration error that is not "empty") changes nothing;
 // a valid answer is applied; every other failure (communication error, not found, empty) is applied
@@ -59,4 +59,4 @@ package httpendpoint
 //@   ensures frs.ret1[old(frs.n)] != nil && Is(frs.ret1[old(frs.n)], context.Canceled) ==> ret0 == nil && rsu.n == old(rsu.n) && onc.n == old(onc.n) && onu.n == old(onu.n) && ond.n == old(ond.n)
 //@   ensures frs.ret1[old(frs.n)] == nil ==> rsu.n == old(rsu.n) + 1 && rsu.arg1[old(rsu.n)] == frs.ret0[old(frs.n)] && rsu.arg2[old(rsu.n)] == fetcherID(rsf) && ret0 == nil
 //@   ensures frs.ret1[old(frs.n)] != nil && !Is(frs.ret1[old(frs.n)], context.Canceled) && (Is(frs.ret1[old(frs.n)], config2.ErrEmptyRuleSet) || (!Is(frs.ret1[old(frs.n)], heimdall.ErrInternal) && !Is(frs.ret1[old(frs.n)], heimdall.ErrConfiguration))) ==> rsu.n == old(rsu.n) + 1 && rsu.arg2[old(rsu.n)] == fetcherID(rsf) && ret0 == nil
-//@   assert at call ruleSetsUpdated#1: callarg1 != nil && (frs.ret1[frs.n - 1] != nil ==> len(callarg1.Rules) == 0 && callarg1.MetaData.Source == "http_endpoint:" + fetcherID(rsf))
+//@   assert at call ruleSetsUpdated#1@6a6926aa.1: callarg1 != nil && (frs.ret1[frs.n - 1] != nil ==> len(callarg1.Rules) == 0 && callarg1.MetaData.Source == "http_endpoint:" + fetcherID(rsf))
